@@ -53,6 +53,12 @@ var catalogue = []faultClass{
 	{"dhGen", "server_nonce", "flip", 128}, {"dhGen", "server_nonce", "random", 0}, {"dhGen", "server_nonce", "other", 0}, {"dhGen", "server_nonce", "zero", 0},
 	{"dhGen", "new_nonce_hash", "flip", 128}, {"dhGen", "new_nonce_hash", "hash2", 0}, {"dhGen", "new_nonce_hash", "hash3", 0}, {"dhGen", "new_nonce_hash", "random-hash", 0},
 	{"dhGen", "kind", "gen_retry", 0}, {"dhGen", "kind", "gen_fail", 0},
+	// substitution by zero / by the other nonce for the hash too, and partially zeroed values (head or tail kept)
+	{"dhGen", "new_nonce_hash", "zero", 0}, {"dhGen", "new_nonce_hash", "other", 0}, {"dhGen", "new_nonce_hash", "zero-head", 15}, {"dhGen", "new_nonce_hash", "zero-tail", 15},
+	{"resPQ", "nonce", "zero-head", 15}, {"resPQ", "nonce", "zero-tail", 15},
+	{"dhParams", "nonce", "zero-head", 15}, {"dhParams", "server_nonce", "zero-head", 15}, {"dhParams", "nonce", "zero-tail", 15}, {"dhParams", "server_nonce", "zero-tail", 15},
+	{"dhInner", "nonce", "zero-head", 15}, {"dhInner", "server_nonce", "zero-head", 15}, {"dhInner", "nonce", "zero-tail", 15}, {"dhInner", "server_nonce", "zero-tail", 15},
+	{"dhGen", "nonce", "zero-head", 15}, {"dhGen", "server_nonce", "zero-head", 15}, {"dhGen", "nonce", "zero-tail", 15}, {"dhGen", "server_nonce", "zero-tail", 15},
 }
 
 func judge(sc *scen.Scenario, res *scen.Result, runErr error) (string, error) {
